@@ -1,6 +1,1006 @@
-//! Property C15 — correspondence / expectation run (see DESIGN.md §5, C15).
+//! Property C15 — PST13 parameters cover every monomial; any multivariate polynomial opens.
+//!
+//! (i)   `Combinations` iterator (through `verif_hooks::combinations`) vs the Lean model and vs
+//!       the brute-force list of sorted sub-multisets.
+//! (ii)  the real `MarlinPST13::setup` on the (num_vars, max_degree) grid: trapdoor recovered by
+//!       replaying a clone of the RNG and verified against `beta_h`; key set, element values,
+//!       pairing relations, `trim`.
+//! (iii) trapdoor mode: `UniversalParams` built from known scalars through its public fields;
+//!       commit / open / check on dense and sparse mixed-monomial polynomials, with and without
+//!       hiding, compared with the model element by element; mutated claims must be refused.
+use crate::common::*;
+use crate::wire::{self, Req, Val};
 use crate::Ctx;
+use ark_bls12_381::{Bls12_381, Fr, G1Affine};
+use ark_ec::{pairing::Pairing, CurveGroup};
+use ark_ff::{Field, One, UniformRand, Zero};
+use ark_poly::{
+    multivariate::{SparsePolynomial, SparseTerm, Term},
+    DenseMVPolynomial, Polynomial,
+};
+use ark_poly_commit::marlin_pst13_pc::{
+    CommitterKey, MarlinPST13, Proof, Randomness, UniversalParams, VerifierKey,
+};
+use ark_poly_commit::{
+    kzg10, marlin_pc, verif_hooks, LabeledCommitment, LabeledPolynomial, PolynomialCommitment,
+};
+use std::collections::{BTreeMap, BTreeSet};
+use std::ops::Mul;
+
+type MvPoly = SparsePolynomial<Fr, SparseTerm>;
+type PC = MarlinPST13<Bls12_381, MvPoly>;
+type PP = UniversalParams<Bls12_381, MvPoly>;
+type CK = CommitterKey<Bls12_381, MvPoly>;
+type VK = VerifierKey<Bls12_381>;
+type Rand = Randomness<Bls12_381, MvPoly>;
+type Comm = marlin_pc::Commitment<Bls12_381>;
+
+// ------------------------------------------------------------------------------------------------
+// wire forms
+// ------------------------------------------------------------------------------------------------
+fn term_val(t: &SparseTerm) -> Val {
+    Val::L(
+        t.iter()
+            .map(|(v, p)| Val::L(vec![wire::nat(*v), wire::nat(*p)]))
+            .collect(),
+    )
+}
+fn terms_val<'a>(ts: impl Iterator<Item = &'a SparseTerm>) -> Val {
+    Val::L(ts.map(term_val).collect())
+}
+fn poly_val(p: &MvPoly) -> Val {
+    Val::L(
+        p.terms()
+            .iter()
+            .map(|(c, t)| Val::L(vec![wire::fe(c), term_val(t)]))
+            .collect(),
+    )
+}
+fn polys_val(ps: &[MvPoly]) -> Val {
+    Val::L(ps.iter().map(poly_val).collect())
+}
+fn natss_val(xs: &[Vec<usize>]) -> Val {
+    Val::L(xs.iter().map(|x| wire::nats(x)).collect())
+}
+
+fn choose(n: usize, k: usize) -> usize {
+    let mut r: u128 = 1;
+    for i in 0..k {
+        r = r * (n - i) as u128 / (i + 1) as u128;
+    }
+    r as usize
+}
+
+/// every exponent vector of total degree <= d in nv variables, as `SparseTerm`s (the harness' own
+/// enumeration: plain nested counting, independent of the library's multiset iterator)
+fn all_terms(nv: usize, d: usize) -> Vec<SparseTerm> {
+    fn rec(var: usize, nv: usize, left: usize, cur: &mut Vec<(usize, usize)>, out: &mut Vec<SparseTerm>) {
+        if var == nv {
+            out.push(SparseTerm::new(cur.clone()));
+            return;
+        }
+        for e in 0..=left {
+            if e > 0 {
+                cur.push((var, e));
+            }
+            rec(var + 1, nv, left - e, cur, out);
+            if e > 0 {
+                cur.pop();
+            }
+        }
+    }
+    let mut out = vec![];
+    rec(0, nv, d, &mut vec![], &mut out);
+    out
+}
+
+// ------------------------------------------------------------------------------------------------
+// (i) the Combinations iterator
+// ------------------------------------------------------------------------------------------------
+
+/// all distinct sorted `k`-sub-multisets of `orig`, in lexicographic order (brute force over the
+/// index subsets)
+fn brute_submultisets(orig: &[usize], k: usize) -> Vec<Vec<usize>> {
+    let mut s = orig.to_vec();
+    s.sort();
+    let n = s.len();
+    let mut set = BTreeSet::new();
+    for mask in 0u32..(1u32 << n) {
+        if mask.count_ones() as usize == k {
+            let v: Vec<usize> = (0..n).filter(|i| mask >> i & 1 == 1).map(|i| s[i]).collect();
+            set.insert(v);
+        }
+    }
+    set.into_iter().collect()
+}
+
+fn combination_case(ctx: &mut Ctx, id: &str, orig: Vec<usize>, k: usize, brute: bool) {
+    let out = guarded(|| verif_hooks::combinations(orig.clone(), k));
+    let valid = orig.len() > k && k >= 1;
+    let req = Req::new("c15.combinations")
+        .arg("orig", wire::nats(&orig))
+        .arg("k", wire::nat(k));
+    let desc = format!("combinations n={} k={} valid={}", orig.len(), k, valid);
+    match &out {
+        Ok(v) => {
+            ctx.ses.ask(
+                id,
+                req,
+                ImplOutcome::Ok(vec![("outs".into(), Expect::Raw(natss_val(v)))]),
+            );
+            if brute {
+                let spec = brute_submultisets(&orig, k);
+                if *v != spec {
+                    ctx.rep.expect_fail(
+                        id,
+                        "pst13/combinations-not-all-submultisets",
+                        &format!(
+                            "Combinations({:?},{}) produced {} vectors, the sorted sub-multisets are {} (first difference at {:?})",
+                            orig,
+                            k,
+                            v.len(),
+                            spec.len(),
+                            v.iter().zip(spec.iter()).position(|(a, b)| a != b)
+                        ),
+                        format!("# Combinations::new({:?}, {}).collect()\n# got  {:?}\n# want {:?}\n", orig, k, v, spec),
+                    );
+                }
+            }
+        }
+        Err(a) => {
+            ctx.ses.ask(id, req, ImplOutcome::Refuse(a.clone()));
+            if valid {
+                ctx.rep.expect_fail(
+                    id,
+                    "pst13/combinations-aborted",
+                    &format!("Combinations({:?},{}) panicked: {}", orig, k, a),
+                    format!("# Combinations::new({:?}, {}).collect() panicked: {}\n", orig, k, a),
+                );
+            }
+        }
+    }
+    ctx.rep.count(if valid { "combinations/valid" } else { "combinations/refused" });
+    ctx.rep.case(
+        &desc,
+        if valid && k >= 2 {
+            let mut s = orig.clone();
+            s.sort();
+            Some(format!("comb/{:?}/{}", s, k))
+        } else {
+            None
+        },
+    );
+}
+
+fn run_combinations(ctx: &mut Ctx) {
+    // the three unit tests of the crate and a few fixed shapes
+    let fixed: Vec<(Vec<usize>, usize)> = vec![
+        (vec![2, 2, 2], 2),
+        (vec![1, 2, 3], 2),
+        (vec![1, 2, 2, 3, 4], 3),
+        (vec![4, 3, 2, 2, 1], 3),
+        (vec![0, 0, 0, 0], 3),
+        (vec![0, 1], 1),
+        (vec![5], 1),
+        (vec![], 0),
+        (vec![1, 2], 0),
+        (vec![1, 2], 2),
+        (vec![1, 2], 3),
+    ];
+    for (i, (o, k)) in fixed.into_iter().enumerate() {
+        combination_case(ctx, &format!("C15/comb-fixed/{}", i), o, k, true);
+    }
+    // exhaustive: every sorted list over {0,1,2} of length <= 6 (as multiplicity triples), every k
+    let maxlen = if ctx.thorough { 7 } else { 5 };
+    let mut idx = 0;
+    for a in 0..=maxlen {
+        for b in 0..=(maxlen - a) {
+            for c in 0..=(maxlen - a - b) {
+                let mut o = vec![0usize; a];
+                o.extend(vec![1usize; b]);
+                o.extend(vec![2usize; c]);
+                for k in 1..o.len() {
+                    combination_case(ctx, &format!("C15/comb-exh/{}", idx), o.clone(), k, true);
+                    idx += 1;
+                }
+            }
+        }
+    }
+    // the variable sets of `setup`
+    for nv in 1..=4usize {
+        for d in 1..=4usize {
+            let vs: Vec<usize> = (0..nv).flat_map(|v| vec![v; d]).collect();
+            for deg in 1..=d {
+                if vs.len() != deg {
+                    let brute = vs.len() <= 16;
+                    combination_case(ctx, &format!("C15/comb-setup/{}-{}-{}", nv, d, deg), vs.clone(), deg, brute);
+                }
+            }
+        }
+    }
+    // random, unsorted, including out-of-domain lengths
+    let n = ctx.n(150, 2500);
+    for i in 0..n {
+        let mut rng = rng_for(ctx.seed, "C15/comb", i as u64);
+        let len = range(&mut rng, 0, if ctx.thorough { 12 } else { 9 });
+        let hi = range(&mut rng, 0, 5);
+        let orig: Vec<usize> = (0..len).map(|_| range(&mut rng, 0, hi)).collect();
+        let k = if range(&mut rng, 0, 9) == 0 {
+            range(&mut rng, 0, len + 1)
+        } else if len >= 2 {
+            range(&mut rng, 1, len - 1)
+        } else {
+            range(&mut rng, 0, 2)
+        };
+        combination_case(ctx, &format!("C15/comb/{}", i), orig, k, true);
+    }
+    ctx.flush_model("C15-comb");
+}
+
+// ------------------------------------------------------------------------------------------------
+// (ii) the real setup
+// ------------------------------------------------------------------------------------------------
+
+fn setup_case(ctx: &mut Ctx, nv: usize, d: usize, pair_budget: usize) {
+    let id = format!("C15/setup/{}-{}", nv, d);
+    let mut rng = rng_for(ctx.seed, "C15/setup", (nv * 16 + d) as u64);
+    let mut replay = rng.clone();
+    let replay_txt = format!(
+        "# MarlinPST13::setup(max_degree={}, num_vars=Some({}), rng_for(seed={}, \"C15/setup\", {}))\n",
+        d,
+        nv,
+        ctx.seed,
+        nv * 16 + d
+    );
+    let pp: PP = match guarded(|| PC::setup(d, Some(nv), &mut rng)) {
+        Ok(Ok(pp)) => pp,
+        Ok(Err(e)) => {
+            ctx.rep.expect_fail(&id, "pst13/setup-refused", &format!("setup refused an in-domain request: {}", e), replay_txt);
+            return;
+        }
+        Err(a) => {
+            ctx.rep.expect_fail(&id, "pst13/setup-aborted", &format!("setup aborted on an in-domain request: {}", a), replay_txt);
+            return;
+        }
+    };
+    // trapdoor: the first nv field draws — verified, not assumed
+    let betas: Vec<Fr> = (0..nv).map(|_| Fr::rand(&mut replay)).collect();
+    let recovered = pp.beta_h.len() == nv
+        && betas
+            .iter()
+            .zip(pp.beta_h.iter())
+            .all(|(b, bh)| pp.h.mul(*b).into_affine() == *bh);
+    if !recovered {
+        ctx.rep.model_disagreements.push(Failure {
+            case_id: id.clone(),
+            signature: "pst13/trapdoor-not-recovered".into(),
+            what: "beta_h[i] != (i-th replayed field draw)·h: the setup no longer draws the trapdoor first, or beta_h is not the trapdoor in G2".into(),
+            replay: replay_txt.clone(),
+        });
+        return;
+    }
+    let mut problems: Vec<String> = vec![];
+    let one = SparseTerm::new(vec![]);
+    let g = match pp.powers_of_g.get(&one) {
+        Some(g) => *g,
+        None => {
+            ctx.rep.expect_fail(&id, "pst13/setup-key-set", "the constant monomial is missing from powers_of_g", replay_txt);
+            return;
+        }
+    };
+    // key set == all exponent vectors of total degree <= d
+    let want: BTreeSet<SparseTerm> = all_terms(nv, d).into_iter().collect();
+    let have: BTreeSet<SparseTerm> = pp.powers_of_g.keys().cloned().collect();
+    if want.len() != choose(nv + d, d) {
+        problems.push("harness enumeration has the wrong size".into());
+    }
+    if pp.powers_of_g.len() != choose(nv + d, d) {
+        problems.push(format!("powers_of_g has {} elements, C({}+{},{}) = {}", pp.powers_of_g.len(), nv, d, d, choose(nv + d, d)));
+    }
+    if have != want {
+        let missing: Vec<_> = want.difference(&have).take(3).collect();
+        let extra: Vec<_> = have.difference(&want).take(3).collect();
+        problems.push(format!("key set differs from the monomials of degree <= {}: missing {:?} extra {:?}", d, missing, extra));
+    }
+    if pp.num_vars != nv || pp.max_degree != d {
+        problems.push("num_vars / max_degree fields differ from the request".into());
+    }
+    // every element is the generator scaled by the monomial at the common trapdoor point
+    let mut vals = vec![];
+    for (t, el) in pp.powers_of_g.iter() {
+        let tv: Fr = t.evaluate(&betas);
+        vals.push(tv);
+        if g.mul(tv).into_affine() != *el {
+            problems.push(format!("powers_of_g[{:?}] != t(beta)·g", t));
+            break;
+        }
+    }
+    // gamma rows
+    let mut grows: Vec<Vec<Fr>> = vec![];
+    if pp.powers_of_gamma_g.len() != nv {
+        problems.push("powers_of_gamma_g has the wrong number of rows".into());
+    }
+    for (i, row) in pp.powers_of_gamma_g.iter().enumerate() {
+        if row.len() != d + 1 {
+            problems.push(format!("powers_of_gamma_g[{}] has {} entries, expected {}", i, row.len(), d + 1));
+        }
+        let mut cur = Fr::one();
+        let mut r = vec![];
+        for el in row.iter() {
+            cur *= betas.get(i).copied().unwrap_or(Fr::zero());
+            r.push(cur);
+            if pp.gamma_g.mul(cur).into_affine() != *el {
+                problems.push(format!("powers_of_gamma_g[{}][{}] != beta_i^(j+1)·gamma_g", i, r.len() - 1));
+                break;
+            }
+        }
+        grows.push(r);
+    }
+    // pairing relations e(G[m·x_i], h) == e(G[m], beta_i h)
+    let lower: Vec<&SparseTerm> = pp.powers_of_g.keys().filter(|t| t.degree() + 1 <= d).collect();
+    let total_pairs = lower.len() * nv;
+    let mut done = 0;
+    let step = std::cmp::max(1, total_pairs / std::cmp::max(1, pair_budget));
+    let mut k = (nv * 7 + d) % step;
+    while k < total_pairs {
+        let m = lower[k / nv];
+        let i = k % nv;
+        let mut v = m.to_vec();
+        v.push((i, 1));
+        let mx = SparseTerm::new(v);
+        match (pp.powers_of_g.get(&mx), pp.powers_of_g.get(m)) {
+            (Some(a), Some(b)) => {
+                if Bls12_381::pairing(*a, pp.h) != Bls12_381::pairing(*b, pp.beta_h[i]) {
+                    problems.push(format!("e(G[{:?}], h) != e(G[{:?}], beta_{} h)", mx, m, i));
+                }
+            }
+            _ => problems.push(format!("monomial {:?}·x_{} missing", m, i)),
+        }
+        done += 1;
+        k += step;
+    }
+    ctx.rep.count(&format!("setup/pairings-checked-{}", if done == total_pairs { "all" } else { "sample" }));
+    if !problems.is_empty() {
+        ctx.rep.expect_fail(
+            &id,
+            "pst13/setup-key-wrong",
+            &problems.join("; "),
+            format!("{}# {}\n", replay_txt, problems.join("\n# ")),
+        );
+    }
+    // model: term set in BTreeMap order, monomial values at the trapdoor, gamma rows, beta_h
+    ctx.ses.ask(
+        &id,
+        Req::new("c15.setup_terms")
+            .arg("nv", wire::nat(nv))
+            .arg("d", wire::nat(d))
+            .arg("betas", wire::fes(&betas)),
+        ImplOutcome::Ok(vec![
+            ("count".into(), Expect::Nat(pp.powers_of_g.len())),
+            ("keys".into(), Expect::Raw(terms_val(pp.powers_of_g.keys()))),
+            ("vals".into(), Expect::Fes(vals.clone())),
+            ("grows".into(), Expect::Raw(wire::fess(&grows))),
+            ("bh".into(), Expect::Fes(betas.clone())),
+        ]),
+    );
+    ctx.rep.case(&format!("setup nv={} D={} terms={}", nv, d, pp.powers_of_g.len()), Some(format!("setup/{}/{}", nv, d)));
+
+    // trim: every supported degree 0..=d, and d+1 (refused)
+    for s in 0..=d + 1 {
+        let tid = format!("{}/trim-{}", id, s);
+        let out = guarded(|| PC::trim(&pp, s, 0, None));
+        let req = Req::new("c15.trim")
+            .arg("nv", wire::nat(nv))
+            .arg("d", wire::nat(d))
+            .arg("s", wire::nat(s))
+            .arg("betas", wire::fes(&betas))
+            .arg("g", wire::fe(&Fr::one()))
+            .arg("gamma", wire::fe(&Fr::one()))
+            .arg("h", wire::fe(&Fr::one()));
+        match out {
+            Ok(Ok((ck, vk))) => {
+                let mut tp: Vec<String> = vec![];
+                let want_s: BTreeSet<SparseTerm> = want.iter().filter(|t| t.degree() <= s).cloned().collect();
+                let have_s: BTreeSet<SparseTerm> = ck.powers_of_g.keys().cloned().collect();
+                if have_s != want_s {
+                    tp.push(format!("trimmed key set is not the monomials of degree <= {}", s));
+                }
+                if ck.powers_of_g.iter().any(|(t, el)| pp.powers_of_g.get(t) != Some(el)) {
+                    tp.push("a trimmed element differs from the universal one".into());
+                }
+                if ck.powers_of_gamma_g.len() != nv
+                    || ck
+                        .powers_of_gamma_g
+                        .iter()
+                        .zip(pp.powers_of_gamma_g.iter())
+                        .any(|(a, b)| a.len() != s + 1 || a[..] != b[..=s])
+                {
+                    tp.push("trimmed gamma rows are not the first s+1 entries".into());
+                }
+                if vk.g != g || vk.gamma_g != pp.gamma_g || vk.h != pp.h || vk.beta_h != pp.beta_h
+                    || ck.gamma_g != pp.gamma_g || ck.num_vars != nv || vk.num_vars != nv
+                    || ck.supported_degree != s || vk.supported_degree != s
+                    || ck.max_degree != d || vk.max_degree != d
+                {
+                    tp.push("verifier/committer key fields differ from the parameters".into());
+                }
+                if s > d {
+                    tp.push("trim accepted supported_degree > max_degree".into());
+                }
+                if !tp.is_empty() {
+                    ctx.rep.expect_fail(&tid, "pst13/trim-wrong", &tp.join("; "), format!("{}# trim(pp, {}, 0, None)\n# {}\n", replay_txt, s, tp.join("\n# ")));
+                }
+                let tvals: Vec<Fr> = ck.powers_of_g.keys().map(|t| t.evaluate(&betas)).collect();
+                let trows: Vec<Vec<Fr>> = grows.iter().map(|r| r[..std::cmp::min(s + 1, r.len())].to_vec()).collect();
+                ctx.ses.ask(
+                    &tid,
+                    req,
+                    ImplOutcome::Ok(vec![
+                        ("keys".into(), Expect::Raw(terms_val(ck.powers_of_g.keys()))),
+                        ("vals".into(), Expect::Fes(tvals)),
+                        ("grows".into(), Expect::Raw(wire::fess(&trows))),
+                        ("bh".into(), Expect::Fes(betas.clone())),
+                    ]),
+                );
+            }
+            Ok(Err(e)) => {
+                if s <= d {
+                    ctx.rep.expect_fail(&tid, "pst13/trim-refused", &format!("trim refused supported_degree {} <= {}: {}", s, d, e), replay_txt.clone());
+                }
+                ctx.ses.ask(&tid, req, ImplOutcome::Refuse(err_kind(&e)));
+            }
+            Err(a) => {
+                ctx.rep.expect_fail(&tid, "pst13/trim-aborted", &format!("trim aborted: {}", a), replay_txt.clone());
+                ctx.ses.ask(&tid, req, ImplOutcome::Refuse(a));
+            }
+        }
+        ctx.rep.count(if s <= d { "trim/in-domain" } else { "trim/too-large" });
+        ctx.rep.case(&format!("trim nv={} D={} s={}", nv, d, s), Some(format!("trim/{}/{}/{}", nv, d, s)));
+    }
+}
+
+fn run_setup(ctx: &mut Ctx) {
+    for nv in 1..=6usize {
+        for d in 1..=6usize {
+            let id = format!("C15/setup/{}-{}", nv, d);
+            if !ctx.selected(&id) {
+                continue;
+            }
+            // quick: the whole grid as well (it is cheap), with a smaller pairing sample
+            let budget = if ctx.thorough { 4000 } else { 16 };
+            setup_case(ctx, nv, d, budget);
+        }
+        ctx.flush_model(&format!("C15-setup-{}", nv));
+    }
+    // out-of-domain requests are refused, by the model as well
+    for (nv, d) in [(0usize, 2usize), (2, 0)] {
+        let mut rng = rng_for(ctx.seed, "C15/setup-bad", (nv * 16 + d) as u64);
+        let out = guarded(|| PC::setup(d, Some(nv), &mut rng));
+        let id = format!("C15/setup-bad/{}-{}", nv, d);
+        let req = Req::new("c15.setup_terms")
+            .arg("nv", wire::nat(nv))
+            .arg("d", wire::nat(d))
+            .arg("betas", wire::fes::<Fr>(&[]));
+        match out {
+            Ok(Ok(_)) => ctx.rep.expect_fail(&id, "pst13/setup-accepted-bad", "setup accepted num_vars = 0 or max_degree = 0", format!("# setup({}, Some({}))\n", d, nv)),
+            Ok(Err(e)) => ctx.ses.ask(&id, req, ImplOutcome::Refuse(err_kind(&e))),
+            Err(a) => ctx.ses.ask(&id, req, ImplOutcome::Refuse(a)),
+        }
+        ctx.rep.case(&format!("setup refused nv={} D={}", nv, d), None);
+    }
+    ctx.flush_model("C15-setup-bad");
+}
+
+// ------------------------------------------------------------------------------------------------
+// (iii) trapdoor mode
+// ------------------------------------------------------------------------------------------------
+
+#[derive(Clone)]
+struct Trap {
+    nv: usize,
+    d: usize,
+    betas: Vec<Fr>,
+    g: Fr,
+    gamma: Fr,
+    h: Fr,
+}
+
+impl Trap {
+    fn random(rng: &mut Rng, nv: usize, d: usize) -> Self {
+        Trap {
+            nv,
+            d,
+            betas: (0..nv).map(|_| rand_nonzero(rng)).collect(),
+            g: rand_nonzero(rng),
+            gamma: rand_nonzero(rng),
+            h: rand_nonzero(rng),
+        }
+    }
+    /// the parameters `setup` would publish for this trapdoor, built through the public fields
+    fn params(&self) -> PP {
+        let terms = all_terms(self.nv, self.d);
+        let scalars: Vec<Fr> = terms.iter().map(|t| self.g * t.evaluate::<Fr>(&self.betas)).collect();
+        let powers_of_g: BTreeMap<SparseTerm, G1Affine> = terms.into_iter().zip(g1s(&scalars)).collect();
+        let powers_of_gamma_g: Vec<Vec<G1Affine>> = (0..self.nv)
+            .map(|i| {
+                let mut cur = self.gamma;
+                let mut row = vec![];
+                for _ in 0..=self.d {
+                    cur *= self.betas[i];
+                    row.push(cur);
+                }
+                g1s(&row)
+            })
+            .collect();
+        let h = g2(self.h);
+        let beta_h: Vec<_> = self.betas.iter().map(|b| g2(self.h * b)).collect();
+        UniversalParams {
+            powers_of_g,
+            gamma_g: g1(self.gamma),
+            powers_of_gamma_g,
+            h,
+            prepared_h: h.into(),
+            prepared_beta_h: beta_h.iter().map(|x| (*x).into()).collect(),
+            beta_h,
+            num_vars: self.nv,
+            max_degree: self.d,
+        }
+    }
+    fn key_args(&self, r: Req, s: usize) -> Req {
+        r.arg("nv", wire::nat(self.nv))
+            .arg("d", wire::nat(self.d))
+            .arg("s", wire::nat(s))
+            .arg("betas", wire::fes(&self.betas))
+            .arg("g", wire::fe(&self.g))
+            .arg("gamma", wire::fe(&self.gamma))
+            .arg("h", wire::fe(&self.h))
+    }
+    fn desc(&self) -> String {
+        format!(
+            "# trapdoor: nv={} D={} betas={} g={} gamma={} h={}\n",
+            self.nv,
+            self.d,
+            wire::fes(&self.betas),
+            wire::fe(&self.g),
+            wire::fe(&self.gamma),
+            wire::fe(&self.h)
+        )
+    }
+}
+
+/// polynomial generator: dense over all monomials, random sparse mixed monomials, the library's
+/// own `rand` (sum of univariates), single mixed monomial of full degree, zero, constant
+fn gen_poly(rng: &mut Rng, nv: usize, deg: usize) -> (MvPoly, &'static str) {
+    match range(rng, 0, 11) {
+        0 | 1 | 2 | 3 => {
+            let ts = all_terms(nv, deg);
+            let terms = ts.into_iter().map(|t| (Fr::rand(rng), t)).collect();
+            (MvPoly::from_coefficients_vec(nv, terms), "dense")
+        }
+        4 | 5 | 6 | 7 => {
+            let ts = all_terms(nv, deg);
+            let n = range(rng, 1, std::cmp::min(8, ts.len()));
+            let mut terms = vec![];
+            for _ in 0..n {
+                let t = ts[range(rng, 0, ts.len() - 1)].clone();
+                terms.push((Fr::rand(rng), t));
+            }
+            (MvPoly::from_coefficients_vec(nv, terms), "sparse")
+        }
+        8 => (MvPoly::rand(deg, nv, rng), "univariate-sum"),
+        9 => {
+            // one monomial of total degree exactly deg spread over the variables
+            let mut t = vec![0usize; nv];
+            for _ in 0..deg {
+                t[range(rng, 0, nv - 1)] += 1;
+            }
+            let term = SparseTerm::new(t.into_iter().enumerate().collect());
+            (MvPoly::from_coefficients_vec(nv, vec![(rand_nonzero(rng), term), (Fr::rand(rng), SparseTerm::new(vec![]))]), "monomial")
+        }
+        10 => (MvPoly::from_coefficients_vec(nv, vec![]), "zero"),
+        _ => (MvPoly::from_coefficients_vec(nv, vec![(Fr::rand(rng), SparseTerm::new(vec![]))]), "constant"),
+    }
+}
+
+fn coeff_of(p: &MvPoly, t: &SparseTerm) -> Fr {
+    p.terms().iter().find(|(_, u)| u == t).map(|(c, _)| *c).unwrap_or(Fr::zero())
+}
+
+/// the draws that produce `blind` in `SparsePolynomial::rand(hb + 1, nv, _)` (a dropped term is a
+/// zero draw)
+fn draws_of(blind: &MvPoly, nv: usize, hb: usize) -> Vec<Fr> {
+    let mut v = vec![coeff_of(blind, &SparseTerm::new(vec![]))];
+    for var in 0..nv {
+        for deg in 1..=hb + 1 {
+            v.push(coeff_of(blind, &SparseTerm::new(vec![(var, deg)])));
+        }
+    }
+    v
+}
+
+fn lcomm(label: &str, c: G1Affine) -> LabeledCommitment<Comm> {
+    LabeledCommitment::new(
+        label.to_string(),
+        marlin_pc::Commitment {
+            comm: kzg10::Commitment(c),
+            shifted_comm: None,
+        },
+        None,
+    )
+}
+
+fn check_impl(vk: &VK, comms: &[LabeledCommitment<Comm>], z: &Vec<Fr>, vs: &[Fr], proof: &Proof<Bls12_381>, sponge: &LogSponge) -> (ImplOutcome, Vec<Fr>) {
+    let mut sp = sponge.clone();
+    let out = guarded(|| PC::check(vk, comms, z, vs.to_vec(), proof, &mut sp, None));
+    let xis = sp.challenges();
+    let o = match out {
+        Ok(Ok(b)) => ImplOutcome::Ok(vec![("b".into(), Expect::Bool(b))]),
+        Ok(Err(e)) => ImplOutcome::Refuse(err_kind(&e)),
+        Err(a) => ImplOutcome::Refuse(a),
+    };
+    (o, xis)
+}
+
+fn accepted(o: &ImplOutcome) -> bool {
+    matches!(o, ImplOutcome::Ok(kvs) if kvs.iter().any(|(k, e)| k == "b" && matches!(e, Expect::Bool(true))))
+}
+
+/// `w_i(beta)` of the sequential division, by evaluation only:
+/// `(f(z_<i, beta_>=i) - f(z_<=i, beta_>i)) / (beta_i - z_i)`
+fn quotient_at(f: &MvPoly, z: &[Fr], betas: &[Fr], i: usize) -> Option<Fr> {
+    let mut a: Vec<Fr> = betas.to_vec();
+    for j in 0..i {
+        a[j] = z[j];
+    }
+    let mut b = a.clone();
+    b[i] = z[i];
+    let den = (betas[i] - z[i]).inverse()?;
+    Some((f.evaluate(&a) - f.evaluate(&b)) * den)
+}
+
+fn trapdoor_case(ctx: &mut Ctx, i: usize) {
+    let id = format!("C15/pst13/{}", i);
+    if !ctx.selected(&id) {
+        return;
+    }
+    let mut rng = rng_for(ctx.seed, "C15/pst13", i as u64);
+    let (max_nv, max_d) = if ctx.thorough { (5, 5) } else { (3, 4) };
+    let nv = if range(&mut rng, 0, 5) == 0 { 1 } else { range(&mut rng, 2, max_nv) };
+    let d = if range(&mut rng, 0, 5) == 0 { 1 } else { range(&mut rng, 2, max_d) };
+    let s = if coin(&mut rng) { d } else { range(&mut rng, 1, d) };
+    let trap = Trap::random(&mut rng, nv, d);
+    let pp = trap.params();
+    let head = format!("{}# supported_degree={} case={} seed={}\n", trap.desc(), s, id, ctx.seed);
+    let (ck, vk): (CK, VK) = match guarded(|| PC::trim(&pp, s, 0, None)) {
+        Ok(Ok(x)) => x,
+        other => {
+            ctx.rep.expect_fail(&id, "pst13/trim-refused", &format!("trim refused in-domain parameters: {:?}", other.err()), head);
+            return;
+        }
+    };
+    // the model derives the same keys from the scalars with its own setup + trim
+    if i % 8 == 0 {
+        let kscal: Vec<Fr> = ck.powers_of_g.keys().map(|t| trap.g * t.evaluate::<Fr>(&trap.betas)).collect();
+        let _ = kscal;
+        ctx.ses.ask(
+            &format!("{}/keys", id),
+            trap.key_args(Req::new("c15.trim"), s),
+            ImplOutcome::Ok(vec![
+                ("keys".into(), Expect::Raw(terms_val(ck.powers_of_g.keys()))),
+                ("vals".into(), Expect::G1s(ck.powers_of_g.values().cloned().collect())),
+                ("g".into(), Expect::G1(vk.g)),
+                ("gamma_g".into(), Expect::G1(vk.gamma_g)),
+                ("h".into(), Expect::G2(vk.h)),
+            ]),
+        );
+    }
+    let npoly = if range(&mut rng, 0, 2) == 0 { range(&mut rng, 2, 3) } else { 1 };
+    let mut polys: Vec<LabeledPolynomial<Fr, MvPoly>> = vec![];
+    let mut kinds = vec![];
+    let mut hbs = vec![];
+    for j in 0..npoly {
+        let deg = if coin(&mut rng) { s } else { range(&mut rng, 0, s) };
+        let (p, kind) = gen_poly(&mut rng, nv, deg);
+        let hb = if coin(&mut rng) { Some(range(&mut rng, 1, s)) } else { None };
+        kinds.push(kind);
+        hbs.push(hb);
+        polys.push(LabeledPolynomial::new(format!("p{}", j), p, None, hb));
+    }
+    let desc = format!("pst13 nv={} D={} s={} polys={:?} hiding={:?}", nv, d, s, kinds, hbs);
+    let ptxt = format!(
+        "{}# polynomials: {}\n# hiding bounds: {:?}\n",
+        head,
+        polys_val(&polys.iter().map(|p| p.polynomial().clone()).collect::<Vec<_>>()),
+        hbs
+    );
+    // commit
+    let (comms, states): (Vec<LabeledCommitment<Comm>>, Vec<Rand>) = match guarded(|| PC::commit(&ck, polys.iter(), Some(&mut rng))) {
+        Ok(Ok(x)) => x,
+        other => {
+            ctx.rep.expect_fail(
+                &id,
+                "pst13/commit-refused",
+                &format!("commit refused a polynomial within the supported degree: {:?}", other.err().or(Some("Err".into()))),
+                ptxt,
+            );
+            ctx.rep.case(&desc, None);
+            return;
+        }
+    };
+    let mut c_scalars = vec![];
+    let mut key_defined = true;
+    for j in 0..npoly {
+        let p = polys[j].polynomial();
+        let blind = &states[j].blinding_polynomial;
+        let draws = match hbs[j] {
+            Some(hb) => draws_of(blind, nv, hb),
+            None => vec![],
+        };
+        ctx.ses.ask(
+            &format!("{}/commit{}", id, j),
+            trap.key_args(Req::new("c15.commit"), s)
+                .arg("p", poly_val(p))
+                .arg("hb", wire::opt_nat(hbs[j]))
+                .arg("rng", wire::boolean(true))
+                .arg("draws", wire::fes(&draws)),
+            ImplOutcome::Ok(vec![
+                ("c".into(), Expect::G1(comms[j].commitment().comm.0)),
+                ("blind".into(), Expect::Raw(poly_val(blind))),
+            ]),
+        );
+        let cs = trap.g * p.evaluate(&trap.betas) + trap.gamma * blind.evaluate(&trap.betas);
+        if g1(cs) != comms[j].commitment().comm.0 {
+            key_defined = false;
+            ctx.rep.expect_fail(
+                &id,
+                "pst13/commitment-not-key-defined",
+                &format!("commitment {} != g·p(beta) + gamma·r(beta)", j),
+                ptxt.clone(),
+            );
+        }
+        if hbs[j].is_some() != !blind.is_zero() {
+            ctx.rep.count("pst13/blinding-zero-with-hiding");
+        }
+        c_scalars.push(cs);
+        ctx.rep.count(&format!("pst13/poly-{}", kinds[j]));
+        ctx.rep.count(if hbs[j].is_some() { "pst13/hiding" } else { "pst13/non-hiding" });
+        // evaluation and degree of the model's polynomial type
+        if j == 0 {
+            let zz: Vec<Fr> = (0..nv).map(|_| Fr::rand(&mut rng)).collect();
+            ctx.ses.ask(
+                &format!("{}/eval", id),
+                Req::new("c15.eval").arg("p", poly_val(p)).arg("z", wire::fes(&zz)),
+                ImplOutcome::Ok(vec![
+                    ("v".into(), Expect::Fe(p.evaluate(&zz))),
+                    ("deg".into(), Expect::Nat(p.degree())),
+                ]),
+            );
+        }
+    }
+    // open at a random point (sometimes with zero / repeated coordinates)
+    let mut z: Vec<Fr> = (0..nv).map(|_| Fr::rand(&mut rng)).collect();
+    match range(&mut rng, 0, 7) {
+        0 => z[range(&mut rng, 0, nv - 1)] = Fr::zero(),
+        1 => {
+            let c = z[0];
+            for x in z.iter_mut() {
+                *x = c;
+            }
+        }
+        _ => {}
+    }
+    let mut sponge = fresh();
+    sponge.absorb_seed(i as u64);
+    let vsponge = sponge.clone();
+    let proof: Proof<Bls12_381> = match guarded(|| PC::open(&ck, polys.iter(), comms.iter(), &z, &mut sponge, states.iter(), None)) {
+        Ok(Ok(p)) => p,
+        other => {
+            ctx.rep.expect_fail(
+                &id,
+                "pst13/open-refused",
+                &format!("open refused a committed polynomial: {:?}", other.err().or(Some("Err".into()))),
+                format!("{}# point {}\n", ptxt, wire::fes(&z)),
+            );
+            ctx.rep.case(&desc, None);
+            return;
+        }
+    };
+    let xis = sponge.challenges();
+    let any_hiding = hbs.iter().any(|h| h.is_some());
+    let plain: Vec<MvPoly> = polys.iter().map(|p| p.polynomial().clone()).collect();
+    let blinds: Vec<MvPoly> = states.iter().map(|s| s.blinding_polynomial.clone()).collect();
+    ctx.ses.ask(
+        &format!("{}/open", id),
+        trap.key_args(Req::new("c15.open"), s)
+            .arg("nvp", wire::nat(nv))
+            .arg("nvr", wire::nat(if any_hiding { nv } else { 0 }))
+            .arg("ps", polys_val(&plain))
+            .arg("z", wire::fes(&z))
+            .arg("rs", polys_val(&blinds))
+            .arg("xis", wire::fes(&xis)),
+        ImplOutcome::Ok(vec![
+            ("w".into(), Expect::G1s(proof.w.clone())),
+            ("rv".into(), Expect::OptFe(proof.random_v)),
+        ]),
+    );
+    if xis.len() != npoly {
+        ctx.rep.count("pst13/unexpected-squeeze-count");
+    }
+    // witness scalars by evaluation (needs beta_i != z_i)
+    let mut w_scalars: Option<Vec<Fr>> = Some(vec![]);
+    if xis.len() == npoly {
+        for v in 0..nv {
+            let mut acc = Fr::zero();
+            let mut ok = true;
+            for j in 0..npoly {
+                match (quotient_at(&plain[j], &z, &trap.betas, v), quotient_at(&blinds[j], &z, &trap.betas, v)) {
+                    (Some(a), Some(b)) => acc += xis[j] * (trap.g * a + trap.gamma * b),
+                    _ => ok = false,
+                }
+            }
+            match (&mut w_scalars, ok) {
+                (Some(ws), true) => ws.push(acc),
+                _ => w_scalars = None,
+            }
+        }
+    } else {
+        w_scalars = None;
+    }
+    if let Some(ws) = &w_scalars {
+        if proof.w.len() != nv || ws.iter().zip(proof.w.iter()).any(|(s, w)| g1(*s) != *w) {
+            ctx.rep.count("pst13/witness-differs-from-sequential-quotient");
+            w_scalars = None;
+        }
+    }
+    let values: Vec<Fr> = plain.iter().map(|p| p.evaluate(&z)).collect();
+    let (out, vxis) = check_impl(&vk, &comms, &z, &values, &proof, &vsponge);
+    if !accepted(&out) {
+        ctx.rep.expect_fail(
+            &id,
+            "pst13/honest-rejected",
+            &format!("honest proof of a true claim was not accepted: {:?}", out),
+            format!("{}# point {}\n# values {}\n", ptxt, wire::fes(&z), wire::fes(&values)),
+        );
+    }
+    let ask_check = |ctx: &mut Ctx, cid: &str, cs: &[Fr], z: &[Fr], vs: &[Fr], ws: &[Fr], rv: &Option<Fr>, xis: &[Fr], out: ImplOutcome| {
+        ctx.ses.ask(
+            cid,
+            trap.key_args(Req::new("c15.check"), s)
+                .arg("cs", wire::fes(cs))
+                .arg("z", wire::fes(z))
+                .arg("vs", wire::fes(vs))
+                .arg("w", wire::fes(ws))
+                .arg("rv", wire::opt_fe(rv))
+                .arg("xis", wire::fes(xis)),
+            out,
+        );
+    };
+    if let (Some(ws), true) = (&w_scalars, key_defined) {
+        ask_check(ctx, &format!("{}/check", id), &c_scalars, &z, &values, ws, &proof.random_v, &vxis, out.clone());
+        // mutated claims
+        // (1) value + delta
+        let j = range(&mut rng, 0, npoly - 1);
+        let mut vs2 = values.clone();
+        vs2[j] += rand_nonzero(&mut rng);
+        let (o2, x2) = check_impl(&vk, &comms, &z, &vs2, &proof, &vsponge);
+        if accepted(&o2) {
+            ctx.rep.expect_fail(&id, "pst13/false-value-accepted", "value + delta accepted with the honest proof", format!("{}# point {}\n# claimed values {}\n", ptxt, wire::fes(&z), wire::fes(&vs2)));
+        }
+        ask_check(ctx, &format!("{}/mut-value", id), &c_scalars, &z, &vs2, ws, &proof.random_v, &x2, o2);
+        // (2) another point
+        let mut z2 = z.clone();
+        let v = range(&mut rng, 0, nv - 1);
+        z2[v] += rand_nonzero(&mut rng);
+        let claim_false = plain.iter().zip(values.iter()).any(|(p, val)| p.evaluate(&z2) != *val);
+        let (o3, x3) = check_impl(&vk, &comms, &z2, &values, &proof, &vsponge);
+        if claim_false && accepted(&o3) {
+            ctx.rep.expect_fail(&id, "pst13/false-point-accepted", "claim at another point accepted with the honest proof", format!("{}# proof for {}\n# checked at {}\n", ptxt, wire::fes(&z), wire::fes(&z2)));
+        }
+        ask_check(ctx, &format!("{}/mut-point", id), &c_scalars, &z2, &values, ws, &proof.random_v, &x3, o3);
+        ctx.rep.count(if claim_false { "pst13/mut-point-false" } else { "pst13/mut-point-still-true" });
+        // (3) another commitment: to a different polynomial, or a random element
+        let mut cs2 = c_scalars.clone();
+        let what = if coin(&mut rng) {
+            let (q, _) = gen_poly(&mut rng, nv, s);
+            let q = &q + &MvPoly::from_coefficients_vec(nv, vec![(rand_nonzero(&mut rng), SparseTerm::new(vec![(0, 1)]))]);
+            cs2[j] = trap.g * q.evaluate(&trap.betas);
+            if q.evaluate(&z) == values[j] && states[j].blinding_polynomial.is_zero() {
+                // the changed commitment still opens to the claimed value only by accident
+                ctx.rep.count("pst13/mut-comm-coincidence");
+            }
+            "other-poly"
+        } else {
+            cs2[j] = Fr::rand(&mut rng);
+            "random"
+        };
+        let mut comms2 = comms.clone();
+        comms2[j] = lcomm(comms[j].label(), g1(cs2[j]));
+        let (o4, x4) = check_impl(&vk, &comms2, &z, &values, &proof, &vsponge);
+        if accepted(&o4) && cs2[j] != c_scalars[j] {
+            ctx.rep.expect_fail(&id, "pst13/other-commitment-accepted", &format!("honest proof accepted against another commitment ({})", what), format!("{}# commitment {} replaced by scalar {}\n", ptxt, j, wire::fe(&cs2[j])));
+        }
+        ask_check(ctx, &format!("{}/mut-comm", id), &cs2, &z, &values, ws, &proof.random_v, &x4, o4);
+        ctx.rep.count(&format!("pst13/mut-comm-{}", what));
+    }
+    let mixed = plain.iter().any(|p| p.terms().iter().any(|(_, t)| t.len() >= 2));
+    ctx.rep.case(
+        &desc,
+        Some(format!("pst13/{}/{}/{}/{:?}/{:?}/{}", nv, d, s, kinds, hbs.iter().map(|h| h.is_some()).collect::<Vec<_>>(), mixed)),
+    );
+    if mixed {
+        ctx.rep.count("pst13/has-mixed-monomial");
+    }
+}
+
+fn fresh() -> LogSponge {
+    LogSponge::fresh()
+}
+
+/// requests the committer must refuse: hiding bound 0 / too large, degree above the supported one,
+/// hiding without an RNG (a panic in `OptionalRng`)
+fn refusal_case(ctx: &mut Ctx, i: usize) {
+    let id = format!("C15/pst13-refuse/{}", i);
+    let mut rng = rng_for(ctx.seed, "C15/pst13-refuse", i as u64);
+    let nv = range(&mut rng, 1, 3);
+    let d = range(&mut rng, 2, 4);
+    let s = range(&mut rng, 1, d - 1);
+    let trap = Trap::random(&mut rng, nv, d);
+    let pp = trap.params();
+    let (ck, _vk): (CK, VK) = match guarded(|| PC::trim(&pp, s, 0, None)) {
+        Ok(Ok(x)) => x,
+        _ => return,
+    };
+    let kind = i % 4;
+    let (p, hb, with_rng, what) = match kind {
+        0 => (gen_poly(&mut rng, nv, s).0, Some(0usize), true, "hiding-bound-zero"),
+        1 => (gen_poly(&mut rng, nv, s).0, Some(s + 1 + range(&mut rng, 0, 2)), true, "hiding-bound-too-large"),
+        2 => {
+            let mut t = vec![(0usize, s + 1)];
+            if nv > 1 && s >= 1 {
+                t = vec![(0, s), (1, 1)];
+            }
+            (MvPoly::from_coefficients_vec(nv, vec![(rand_nonzero(&mut rng), SparseTerm::new(t))]), None, true, "degree-too-large")
+        }
+        _ => (gen_poly(&mut rng, nv, s).0, Some(range(&mut rng, 1, s)), false, "hiding-without-rng"),
+    };
+    let lp = LabeledPolynomial::new("p".to_string(), p.clone(), None, hb);
+    let out = if with_rng {
+        guarded(|| PC::commit(&ck, [&lp], Some(&mut rng)))
+    } else {
+        guarded(|| PC::commit(&ck, [&lp], None))
+    };
+    let draws: Vec<Fr> = (0..1 + nv * (hb.unwrap_or(0) + 1)).map(|_| Fr::rand(&mut rng)).collect();
+    let req = trap
+        .key_args(Req::new("c15.commit"), s)
+        .arg("p", poly_val(&p))
+        .arg("hb", wire::opt_nat(hb))
+        .arg("rng", wire::boolean(with_rng))
+        .arg("draws", wire::fes(&draws));
+    match out {
+        Ok(Ok(_)) => {
+            ctx.rep.expect_fail(&id, &format!("pst13/commit-accepted-{}", what), &format!("commit accepted an out-of-domain request ({})", what), format!("{}# s={} p={} hb={:?}\n", trap.desc(), s, poly_val(&p), hb));
+        }
+        Ok(Err(e)) => ctx.ses.ask(&id, req, ImplOutcome::Refuse(err_kind(&e))),
+        Err(a) => ctx.ses.ask(&id, req, ImplOutcome::Refuse(a)),
+    }
+    ctx.rep.count(&format!("pst13/refusal-{}", what));
+    ctx.rep.case(&format!("pst13 refusal {} nv={} D={} s={}", what, nv, d, s), None);
+}
 
 pub fn run(ctx: &mut Ctx) {
-    let _ = ctx;
+    run_combinations(ctx);
+    run_setup(ctx);
+    let n = ctx.n(120, 1500);
+    for i in 0..n {
+        trapdoor_case(ctx, i);
+        if i % 40 == 39 {
+            ctx.flush_model(&format!("C15-pst13-{}", i / 40));
+        }
+    }
+    ctx.flush_model("C15-pst13-last");
+    let nr = ctx.n(16, 120);
+    for i in 0..nr {
+        refusal_case(ctx, i);
+    }
+    ctx.flush_model("C15-pst13-refuse");
 }
